@@ -293,8 +293,9 @@ Section Sem.
     | KChunk => NChunk (Some dlen) (Some code_internal)
     end.
 
+  (** A handle that is only asked for its size is released with Discard. *)
   Definition needs_validation (m : meth) : bool :=
-    match m with MDiscard => false | _ => true end.
+    match m with MDiscard | MSize => false | _ => true end.
 
   Definition bbind (b : bres) (f : node -> bres) : bres :=
     match b with BPanic => BPanic | BNode n => f n end.
